@@ -11,11 +11,13 @@ Go facts mirrored here (all under `c.mu`):
   present in either map → `ErrorAlreadySubscribed`; `len(channels)+len(mapSubscribing) ≥ limit` →
   `ErrorLimitExceeded`; otherwise a reservation is installed *in the same critical section*;
 * map client subscribe: same checks, but the function returns **without reserving**; the reservation in
-  `c.mapSubscribing` is made later (`handleMapStatePhase`), after the `OnSubscribe` handler has answered,
-  and only re-checks "already in `mapSubscribing`" — not the limit;
+  `c.mapSubscribing` is made later (`handleMapStatePhase` / recovery-mode `handleMapStreamPhase`), after
+  the `OnSubscribe` handler has answered; it re-checks "already in `mapSubscribing`" and — since
+  /repo commit 516266d2 — the channel limit, under the same lock that installs the reservation;
 * a finished map subscribe writes `c.channels[ch]` unconditionally and deletes its `mapSubscribing` entry;
 * a failed regular subscribe removes its reservation if the generation still matches; a successful one
-  turns it into a subscription if the generation still matches;
+  turns it into a subscription if the generation still matches (generations are unique and a callback
+  answers once, so `complete` only ever meets its own `reserved` placeholder);
 * server-side `Client.Subscribe` compares `len(c.channels)` alone with the limit and closes the
   connection with `DisconnectChannelLimit` when it is reached.
 -/
@@ -56,6 +58,16 @@ def LState.inChannels (s : LState) (ch : Nat) : Bool := s.channels.any (·.ch = 
 def LState.inMap (s : LState) (ch : Nat) : Bool := s.mapSubscribing.any (·.1 = ch)
 def LState.total (s : LState) : Nat := s.channels.length + s.mapSubscribing.length
 
+/-- entries that count as client-side: committed client-side subscriptions, placeholders of in-flight
+client subscribes, and map subscriptions still loading -/
+def Entry.isClient (e : Entry) : Bool :=
+  match e.st with
+  | .subscribed true => false
+  | _ => true
+
+def LState.clientEntries (s : LState) : Nat :=
+  (s.channels.filter Entry.isClient).length + s.mapSubscribing.length
+
 /-- client-side subscriptions the connection holds (committed, not server-side) -/
 def LState.clientSubs (s : LState) : Nat :=
   (s.channels.filter (fun e => e.st = .subscribed false)).length
@@ -91,6 +103,7 @@ def step (s : LState) : Ev → LState × Res
     else (s, .ok 0)
   | .mapReserve ch =>
     if s.inMap ch then (s, .alreadySubscribed)
+    else if 0 < s.limit ∧ s.limit ≤ s.total then (s, .limitExceeded)
     else ({ s with mapSubscribing := s.mapSubscribing ++ [(ch, s.nextGen)], nextGen := s.nextGen + 1 },
           .ok s.nextGen)
   | .mapCommit ch gen =>
@@ -99,11 +112,13 @@ def step (s : LState) : Ev → LState × Res
                 channels := s.channels.filter (·.ch ≠ ch) ++ [⟨ch, gen, .subscribed false⟩] }, .ok gen)
     else (s, .nothing)
   | .complete ch gen ok =>
-    if s.channels.any (fun e => e.ch = ch ∧ e.gen = gen) then
+    if s.channels.any (fun e => e.ch = ch ∧ e.gen = gen ∧ e.st = .reserved) then
       if ok then
         ({ s with channels := s.channels.map (fun e =>
-            if e.ch = ch ∧ e.gen = gen then { e with st := .subscribed false } else e) }, .ok gen)
-      else ({ s with channels := s.channels.filter (fun e => ¬ (e.ch = ch ∧ e.gen = gen)) }, .nothing)
+            if e.ch = ch ∧ e.gen = gen ∧ e.st = .reserved then { e with st := .subscribed false } else e) },
+          .ok gen)
+      else ({ s with channels := s.channels.filter (fun e => ¬ (e.ch = ch ∧ e.gen = gen ∧ e.st = .reserved)) },
+            .nothing)
     else (s, .nothing)
   | .unsub ch =>
     ({ s with channels := s.channels.filter (·.ch ≠ ch),
